@@ -399,6 +399,31 @@ def fam_core(rng, tier):
                                {"a": "eval_pr", "p": 2}, {"a": "eval_pr", "p": 2}, {"a": "eval_pr", "p": 2},
                                {"a": "eval_pr", "p": 2}, {"a": "gate", "p": 2}, {"a": "finish_queue"},
                                {"a": "eval_pr", "p": 2}], core=True))
+    # C20/C05: a hotfix release between two hotfix pull requests: the branch then owns two queues (q/4.2.17.1 drained,
+    # q/4.2.17.2 with a queued pull request); delete_branch must refuse, the queued one must still be merged
+    out.append(dict(id='core/admin/hotfix-two-queues', world=world('H3h', 'queue'),
+                    steps=[open_pr(1, 'hotfix/4.2.17'), {"a": "gate", "p": 1}, {"a": "finish_queue"},
+                           {"a": "push_tag", "tag": "4.2.17.1", "branch": "hotfix/4.2.17"},
+                           open_pr(2, 'hotfix/4.2.17'), {"a": "gate", "p": 2},
+                           {"a": "api", "kind": "DeleteBranch", "branch": "hotfix/4.2.17"},
+                           open_pr(3, 'development/4.3'), {"a": "gate", "p": 3},
+                           {"a": "finish_queue"}, {"a": "finish_queue"}, {"a": "eval_pr", "p": 2}], core=True))
+    # C19: a pull request is superseded: another one, branched from its source, is merged; then it is declined
+    for mode in ('queue', 'noqueue'):
+        out.append(dict(id='core/decline-superseded/%s' % mode, world=world('B3', mode),
+                        steps=[open_pr(1, 'development/4.3'), {"a": "eval_pr", "p": 1},
+                               open_pr(2, 'development/4.3', base=src(1)), {"a": "gate", "p": 2}, {"a": "finish_queue"},
+                               {"a": "decline", "p": 1}, {"a": "eval_pr", "p": 1}, {"a": "eval_pr", "p": 1}], core=True))
+    # C12: holds on a pull request with a SINGLE target (newest development branch, hotfix branch), with and
+    # without integration pull requests
+    for casc, dst in (('B3', 'development/10.0'), ('H3h', 'hotfix/4.2.17')):
+        for extra in ({}, {'always_create_integration_pull_requests': False}):
+            for hold, pos in (('declined', 'after_green'), ('declined', 'at_open'), ('wait', 'after_green'),
+                              ('after_open', 'after_green')):
+                out.append(dict(id='core/hold-single-target/%s/%s/%s/%s' % (casc, 'noprs' if extra else 'prs', hold, pos),
+                                world=world(casc, 'queue', extra),
+                                steps=[{"a": "hold_script", "hold": hold, "pos": pos, "dst": dst,
+                                        "dst2": "development/4.3"}], core=True))
     # C12: two dependencies of mixed status
     out.append(dict(id='hold/B3/queue/after_two/core', world=world('B3', 'queue'),
                     steps=[{"a": "hold_script", "hold": "after_two", "pos": "at_open", "dst": "development/4.3",
